@@ -47,7 +47,8 @@ def check(model, tier):
     from ..rules import sqlemit as _sqlemit
 
     _sqlemit.r_identifier_agreement(ctx, "R08.14")
-    sqlplace.r11_3_emission(ctx, rule="R08.16")  # ORDER BY / LIMIT emission incl. the logical-column hooks of engine subclasses
+    sqlplace.r11_3_emission(ctx, rule="R08.16")
+    sqlplace.r_refusals_only_where_needed(ctx, "R08.17")  # ORDER BY / LIMIT emission incl. the logical-column hooks of engine subclasses
     _sqlemit.r02_2_join_payload(ctx, rule="R08.15")  # every column a join predicate may use is in the mapping it is converted against
     from ..rules import purity, structure
     from .common import SQL_ENGINE
